@@ -8,18 +8,37 @@ open Jrpc
 
 /-- value representation shared with the harness -/
 inductive PVal where
-  | u (n : Nat) | s (t : Text) | b (v : Bool) | any (raw : Text) | vec (es : List Text)
+  | u (n : Nat) | i (n : Int) | s (t : Text) | b (v : Bool) | any (raw : Text) | vec (es : List Text)
 
 def PVal.repr : PVal → String
   | .u n => s!"{n}"
+  | .i n => s!"{n}"
   | .s t => hexText t
   | .b v => if v then "true" else "false"
   | .any r => hexText r
   | .vec es => "[" ++ String.intercalate "," (es.map hexText) ++ "]"
 
+/-- a signed integer literal as serde_json reads it into an integer type with the given bounds
+(`-0` is a float for serde_json ⇒ rejected) -/
+def decodeSigned (lo hi : Int) (t : Text) : Option Int :=
+  match t with
+  | c :: r =>
+    if c == 45 then
+      match decodeNat r with
+      | some n => if n == 0 then none else if lo ≤ - (n : Int) then some (- (n : Int)) else none
+      | none => none
+    else
+      match decodeNat t with
+      | some n => if (n : Int) ≤ hi then some (n : Int) else none
+      | none => none
+  | [] => none
+
 def decOf (ty : String) : Option (Text → Option PVal) :=
   match ty with
   | "u64" => some (fun r => (decodeU64 r).map PVal.u)
+  | "u8" => some (fun r => ((decodeNat r).bind (fun n => if n < 256 then some n else none)).map PVal.u)
+  | "i64" => some (fun r => (decodeSigned (-9223372036854775808) 9223372036854775807 r).map PVal.i)
+  | "i32" => some (fun r => (decodeSigned (-2147483648) 2147483647 r).map PVal.i)
   | "str" => some (fun r => (decodeString r).map PVal.s)
   | "bool" => some (fun r => (decBool r).map PVal.b)
   | "any" => some (fun r => (decAny r).map PVal.any)
